@@ -19,12 +19,14 @@ PROP = "C05"
 LEVEL = "model_checking"
 RULE = ("E1: product of method x request body length x response body length x server SZX x client maximum SZX x mid-transfer "
         "reduction point (boundary lengths 0,1,15-17,31-33,1023-1025,1124/1125,2048/2049,3000) run to completion against the "
-        "strict server; every server misbehaviour x block position; E2: all schedules with <= K drops/duplications of the "
+        "strict server (also one that states its own larger SZX in its 2.31s); every server misbehaviour x block position (wrong NUM, M on the final "
+        "ack, short block, ETag change/vanishing, skipped/stale block, M past the end, later block refused 4.08/5.03 or answered without Block2); E2: all schedules with <= K drops/duplications of the "
         "individual datagrams of 3-5 block transfers; distinct = distinct parameter tuple / schedule")
 ASSUMPTIONS = [
     "oracle: mcv/refpeer.RefBlockServer, written from RFC 7959 (offset contiguity, NUM*size, M flag, SZX monotonic)",
     "FETCH: Block2 follow-ups may or may not repeat the request body (RFC 8132 can be read either way)",
     "bodies <= 3000 bytes; position-coded contents make truncation, duplication and mixing visible",
+    "don't-care: a later block request answered by a successful response without Block2 - that whole response may be returned",
 ]
 
 CLI = ("2001:db8::c", 40000)
@@ -84,7 +86,7 @@ def check_transfer(res, params, seed):
     res.evaluations += 1
     res.traces += 1
     res.transitions += out["exchanges"]
-    if mis is None:
+    if mis is None or mis[0].startswith("ok-"):
         if out["srv_violations"]:
             res.violate(Violation("wire-block-rules", "offsets contiguous, NUM*size==offset, M only on non-final blocks, SZX never grows",
                                   out["srv_violations"][:3], "protocol.py:BlockwiseRequest._run", case, key=out["srv_violations"][0][0].split(" ")[0] + out["srv_violations"][0][0].split(" ")[1]))
@@ -109,7 +111,9 @@ def check_transfer(res, params, seed):
     else:
         # misbehaving server: an error, or (if the misbehaviour could not bite) exactly the representation -- never another body
         failed_loudly = out["exc"] is not None or (out["code"] is not None and out["code"] >= 128)
-        if out["done"] and not failed_loudly and out["payload"] != rep:
+        # don't-care: a successful response without Block2 in the middle of a transfer may be taken as the (whole) answer
+        whole_plain = mis[0] == "b2-plain-midway" and out["payload"] == b"plain"
+        if out["done"] and not failed_loudly and out["payload"] != rep and not whole_plain:
             res.violate(Violation("corrupt-body-returned", "error or the exact representation",
                                   "%d bytes, first difference at %s" % (len(out["payload"]), first_diff(out["payload"], rep)),
                                   "message.py:_append_response_block", case, key=mis[0]))
@@ -164,6 +168,14 @@ def grid(tier):
                         if tier == "quick" and (sszx + cexp) % 2 and l1 not in (0, 17, 49) and l2 not in (17, 49):
                             continue
                         out.append((method, l1, l2, sszx, cexp, None, None, None))
+    # a conforming server that states its own, larger, size preference in the 2.31s (from block k on) to a client limited to
+    # smaller blocks: the client must carry on with its size
+    for method in ("PUT", "POST"):
+        for cexp in (0, 2, 4):
+            for sszx in sorted({cexp + 1, cexp + 2, 6}):
+                for at in (0, 1, 2, 3):
+                    for l1 in {0: (40, 100), 2: (150, 330), 4: (600, 1300)}[cexp]:
+                        out.append((method, l1, 20, sszx, cexp, None, None, ("ok-own-szx", at)))
     for method in ("PUT", "POST"):
         for sszx in (1, 2, 3, 6):
             for rto in range(0, sszx):
@@ -175,7 +187,7 @@ def grid(tier):
 
 
 MISBEHAVIOURS = ("b1-wrong-num", "b1-more-on-final", "b1-continue-on-final", "b2-short", "b2-etag", "b2-etag-dropped", "b2-skip", "b2-stale",
-                 "b2-more-past-end")
+                 "b2-more-past-end", "b2-408-midway", "b2-503-midway", "b2-plain-midway")
 
 
 def misgrid(tier):
